@@ -128,6 +128,14 @@ class Eval(object):
         if isinstance(e, ast.Name):
             if e.id in self.env:
                 return self.env[e.id]
+            P_ = getattr(self, 'P', None)
+            if P_ is not None:
+                try:
+                    c_ = P_.fold_module_const(self.fi.module.name, e.id)      # a module-level constant
+                except Exception:
+                    c_ = None
+                if isinstance(c_, (bytes, str, int, bool)):
+                    return c_
             raise Unsupported('name %s' % e.id)
         if isinstance(e, ast.Call) and isinstance(e.func, ast.Attribute):
             recv = self.val(e.func.value)
@@ -213,8 +221,8 @@ class Eval(object):
         if isinstance(elt, ast.BinOp) and isinstance(elt.op, ast.Add) and isinstance(elt.left, ast.Name) and elt.left.id == var \
                 and self.val(elt.right) == 'NL':
             plus_nl = True
-        if isinstance(elt, ast.BinOp) and isinstance(elt.op, ast.Mod) and isinstance(elt.left, ast.Constant) \
-                and elt.left.value in (b'%s%s', '%s%s') and isinstance(elt.right, ast.Tuple) and len(elt.right.elts) == 2 \
+        if isinstance(elt, ast.BinOp) and isinstance(elt.op, ast.Mod) and isinstance(elt.left, (ast.Constant, ast.Name)) \
+                and self.val(elt.left) in (b'%s%s', '%s%s') and isinstance(elt.right, ast.Tuple) and len(elt.right.elts) == 2 \
                 and isinstance(elt.right.elts[0], ast.Name) and elt.right.elts[0].id == var and self.val(elt.right.elts[1]) == 'NL':
             plus_nl = True
         if isinstance(elt, ast.BinOp) and isinstance(elt.op, ast.Mod) and isinstance(elt.right, ast.Name) and elt.right.id == var \
@@ -334,6 +342,7 @@ def run(P, rep, tier):
                                                            'none': 'holds no newline', 'one-at-end': 'holds one newline, at its end'}[cnt],
                                                     ', newline == LF' if lf else '')
                 ev = Eval(f, keep, E, lf, cnt)
+                ev.P = P
                 try:
                     ev.run(f.node.body)
                     raise Unsupported('split_lines falls off its end')
